@@ -639,9 +639,16 @@ def judge (ops impl : List String) : Bool × String :=
   if !(impl.any (·.startsWith "selfmap ok")) then (false, "reading: no symbol map for a well-formed file") else
   let looks := splitLooks "" impl []
   if looks.map (·.addr) ≠ c.lookups then (false, "reading: lookup lines do not match the lookup ops") else
-  match firstSome (checkLookup syms files origins) looks with
+  -- every lookup is judged; a failure that is not the known line-gap deviation is reported first, and the
+  -- lookups at addresses without that deviation are still compared with `BPS.readDirectly` below, so that the
+  -- known finding cannot mask another failure in the same case
+  let verdicts := looks.map fun lo => (lo, checkLookup syms files origins lo)
+  let errs := verdicts.filterMap (·.2)
+  match errs.find? (fun e => !e.startsWith "reading:line-gap") with
   | some e => (false, e)
   | none =>
+    let gapErr := errs.head?
+    let sound := verdicts.filterMap fun (lo, e) => if e.isNone then some lo else none
     -- iter_symbols: every symbol of the index, ascending, with the name of a record at that address
     let iterL := w.filter (·.head? = some "iter")
     let nIter := (c.actions.filter (·.isNone)).length
@@ -652,15 +659,16 @@ def judge (ops impl : List String) : Bool × String :=
       | _ => false
     if !iterOk then (false, s!"reading:iter iter_symbols does not list the symbols of the text in ascending order ({iterL.length} lines for {expectA.length} symbols)") else
     -- when the text is literally `BPS.render` of the records and the keys are distinct, the answers must
-    -- be exactly those of `BPS.readDirectly`, the specification of theorem C10_reading
+    -- be exactly those of `BPS.readDirectly`, the specification of theorems C10_reading / C10_reading_at
+    let fin (msg : String) : Bool × String := match gapErr with | some e => (false, e) | none => (true, msg)
     match toSymFile c with
-    | none => (true, "ok")
+    | none => fin "ok"
     | some sf =>
       if BPS.render sf = c.text && nodupNat (BPS.symAddrs sf.lines) && nodupNat (BPS.fileIdxs sf.lines)
           && nodupNat (BPS.originIdxs sf.lines) then
-        match checkExact sf looks with
+        match checkExact sf sound with
         | some e => (false, e)
-        | none => (true, "ok exact")
-      else (true, "ok")
+        | none => fin "ok exact"
+      else fin "ok"
 
 end C10
